@@ -4,7 +4,7 @@ set -e
 B=/verif/.build/ocaml
 mkdir -p $B
 cd $B
-if [ ! -f model.ml ] || [ -n "$(find /verif/coq -name '*.vo' -newer model.ml 2>/dev/null | head -1)" ] || [ /verif/coq/Extract/Extract.v -nt model.ml ]; then
+if [ ! -f model.ml ] || [ -n "$(find /verif/coq/Base /verif/coq/Front /verif/coq/Exec /verif/coq/Analysis /verif/coq/Lint /verif/coq/Cli -name '*.vo' -newer model.ml 2>/dev/null | head -1)" ] || [ /verif/coq/Extract/Extract.v -nt model.ml ]; then
   coqc -Q /verif/coq RRSS /verif/coq/Extract/Extract.v -o $B/Extract.vo >/dev/null
 fi
 cp /verif/driver/*.ml $B/
